@@ -6,7 +6,7 @@ the stream was cut).  TLC checks the contract on the abstract decoder for every 
 fragmentation, and emits every transition; each is replayed with concrete bytes on PeerCodec::try_parse (4096 and 65535
 maximum) and RtrCodec::decode.  The same per-call contract (Some => consumed the declared frame; None => buffer untouched and
 no complete frame buffered; never panic) is then checked on a structured corruption sweep of real messages of every family
-under every codec variant, fed whole and byte by byte, in the debug and (thorough) the release arithmetic profile."""
+under every codec variant (byte and length-field mutations, truncations, and structure-aware cuts of each attribute with all enclosing lengths made consistent again), fed whole and byte by byte, in the debug and (thorough) the release arithmetic profile."""
 import json
 import os
 
